@@ -22,6 +22,8 @@ m = {
          'kind_free_text': 'Coq 8.16.1 + Flocq: hand-written Gallina models of the modelled code and the property theorems (coq/Props/Cxx.v: statements only, Print Assumptions audited)'},
         {'name': 'correspondence-harness', 'path': 'harness/', 'serves_properties': sorted(CHECKS),
          'kind_free_text': 'differential execution: fpy2 from /repo vs the Gallina model evaluated by vm_compute inside coqc, on generated and exhaustive small-domain cases; per-run regenerated tables compiled as Coq theories'},
+        {'name': 'py2v-translator', 'path': 'translate/', 'serves_properties': ['C01', 'C05', 'C17'],
+         'kind_free_text': 'fail-closed Python-ast -> Gallina translator: the model of reals.py/round.py/flags.py/bits.py/ordering.py (63 functions) is regenerated from the working tree on every run and the bridge lemmas coq/dyn/BridgeReals.v (generated = hand-written model, all arguments) and the end-to-end theorems coq/dyn/GenTheorems.v are re-proved against it'},
     ],
     'checks': [],
     'not_applicable': [{'property_id': p, 'reason': r} for p, r in sorted(NOT_APPLICABLE.items())],
